@@ -589,6 +589,32 @@ Section Hier.
     | _, _ => Err "RuntimeError"
     end.
 
+  (* specification of dropping the innermost depth: every tuple loses its last component; consecutive equal tuples
+     (the rows of one former leaf) collapse into one *)
+  Fixpoint dedup_adj (rows : list (list A)) : list (list A) :=
+    match rows with
+    | [] => []
+    | r :: rest =>
+        match rest with
+        | [] => [r]
+        | r2 :: _ => if row_eqb r r2 then dedup_adj rest else r :: dedup_adj rest
+        end
+    end.
+  Definition S_drop_inner (rows : list (list A)) : list (list A) := dedup_adj (map (@removelast A) rows).
+
+  (* ---- IndexHierarchy.level_drop(-1) (index_hierarchy.py:1599-1612): every node whose first child is a leaf loses its
+          targets and becomes a leaf; the offsets of the remaining nodes are NOT recomputed (they still count the
+          dropped labels): finding C05-level-drop-inner-offsets *)
+  Fixpoint M_drop_inner (t : level) : level :=
+    match t with
+    | Leaf o ls => Leaf o ls
+    | Node o ls ks =>
+        match ks with
+        | Leaf _ _ :: _ => Leaf o ls
+        | _ => Node o ls (map M_drop_inner ks)
+        end
+    end.
+
   (* ---- IndexHierarchyGO state: tree + lazily synchronised `_blocks` cache (None = `_recache`) *)
   Record ihgo : Type := mk_ihgo { g_tree : level; g_cache : option (res (list (list A))) }.
 
